@@ -69,7 +69,7 @@ class _Side:
         # reference model of the tick log: per run the tick_data of every append this store acknowledged, in order
         self.ticks: dict[str, list] = {}
         self.model_viol: list[dict] = []
-        # stream_ticks reads performed (generator health): [ticks at start, ticks received, page queries issued, ended by the consumer, consumer ran an op]
+        # stream_ticks reads performed (generator health): [ticks at start, ticks received, page queries issued, ended by the consumer, consumer ran an op, consumer appended to the streamed run]
         self.reads: list[list] = []
 
 
@@ -264,6 +264,8 @@ class C21(Prop):
             ops = list(ops)
             if story is not None:
                 run_, n_, data_, stop_, mid_, a, b = story
+                if mid_ is not None and mid_[1][0] in ("tick", "tks"):
+                    mid_ = (mid_[0], (mid_[1][0], run_) + tuple(mid_[1][2:]))  # the consumer appends to the run it is replaying
                 i = min(a, len(ops))
                 ops.insert(i, ("tks", run_, n_, data_))
                 ops.insert(i + 1 + min(b, len(ops) - i - 1), ("stk", run_, stop_, mid_))
@@ -365,7 +367,7 @@ class C21(Prop):
             self._check_history(side, "stream_ticks", run, out, n0, stop)
             abandoned = stop is not None and len(out) >= stop
             P = self.page_now
-            side.reads.append([n0, len(out), -(-len(out) // P) if abandoned else len(out) // P + 1, abandoned, mid_res is not None])
+            side.reads.append([n0, len(out), -(-len(out) // P) if abandoned else len(out) // P + 1, abandoned, mid_res is not None, len(side.ticks.get(run, [])) > n0])
             return out if mid is None else [out, mid_res]
         if k == "lctx":
             return s.get_legacy_ctx(op[1])
@@ -627,7 +629,9 @@ class C21(Prop):
             r.classes.append("stream_abandoned_early")
         if any(rd[4] for rd in reads):
             r.classes.append("op_during_stream")
-        if any(rd[4] and rd[1] > rd[0] for rd in reads):
+        if any(rd[5] for rd in reads):
+            r.classes.append("tick_appended_to_run_during_its_stream")
+        if any(rd[1] > rd[0] for rd in reads):
             r.classes.append("stream_saw_tick_appended_during_it")
         return r
 
